@@ -59,7 +59,7 @@ def oracle(run, reqs, ref):
     playing_since = None   # index into events of the last play with no pause after it
     for i, ev in enumerate(run.events):
         if ev[0] == 'req' and ev[1].act == sched.PLAY:
-            if ev[1].post_paused:
+            if ev[1].post_paused and not any(q.act == sched.PAUSE for q in ev[1].nested):
                 raise Violation('paused_directly_after_play', **f)
             playing_since = i
         elif ev[0] == 'policy_play':
@@ -103,11 +103,11 @@ def oracle(run, reqs, ref):
         raise Violation('stepping_task_not_released', **f)
 
 
-def _harness(prog, specs, rv):
+def _harness(prog, specs, rv, wheres=None):
     # resume(value) on a workchain that awaits futures is a usage error (the outline step takes no argument)
     assume(not (prog == 8 and any(ACTS[a] == sched.RESUME for (_p, a, _t) in specs)))
     ref = run_reference(prog, rv)
-    reqs = [Req(GAP, pos, ACTS[a], rv, txt) for (pos, a, txt) in specs]
+    reqs = [Req(wheres[i] if wheres else GAP, pos, ACTS[a], rv, txt) for i, (pos, a, txt) in enumerate(specs)]
     run = sched.Run(None, reqs, resume_default=rv, make=make_factory(prog))
     try:
         run.go()
@@ -126,6 +126,10 @@ def _harness(prog, specs, rv):
                 NOTES.witness('play_while_paused')
             if r.act == sched.PLAY and r.pre['pausing']:
                 NOTES.witness('play_cancels_pending_pause')
+            if r.act == sched.PAUSE and r.where in (sched.H_ENTERING, sched.H_EXITING):
+                NOTES.witness('pause_from_state_event_callback')
+            if r.act == sched.PAUSE and r.where in (sched.L_RUNNING, sched.L_WAITING):
+                NOTES.witness('pause_from_listener_notification')
         if any(e[0] == 'policy_play' for e in run.events):
             NOTES.witness('final_play_by_policy')
         NOTES.info = dict(prog=prog, schedule=sched.describe(reqs), final=str(run.proc.state), steps=len(programs.TRACE))
@@ -154,7 +158,36 @@ def sched4(prog: int, rv: int, p0: int, a0: int, p1: int, a1: int, p2: int, a2: 
                                              (p3, pick(a3, NACT), 'm')], rv)
 
 
-HARNESSES = {'sched1': sched1, 'sched2': sched2, 'sched3': sched3, 'sched4': sched4}
+NWHERE = 7   # gap, 4 listener notification kinds, ENTERING_STATE / EXITING_STATE callbacks
+
+
+def _place(w, pos):
+    if w == GAP:
+        assume(0 <= pos <= NPOS)
+    else:
+        assume(0 <= pos <= 3)      # occurrence index of the notification / callback
+
+
+def schedL1(prog: int, rv: int, w0: int, p0: int, a0: int, t0: str):
+    """one request issued from inside a listener notification or a state-event callback (i.e. mid-transition)"""
+    assume(len(t0) <= 1)
+    w = pick(w0, NWHERE)
+    assume(w != GAP)
+    _place(w, p0)
+    _harness(PROGS[pick(prog, len(PROGS))], [(p0, pick(a0, NACT), t0)], rv, [w])
+
+
+def schedL2(prog: int, rv: int, w0: int, p0: int, a0: int, t0: str, w1: int, p1: int, a1: int, t1: str):
+    """two requests, the first issued mid-transition, the second anywhere"""
+    assume(len(t0) <= 1 and len(t1) <= 1)
+    wa, wb = pick(w0, NWHERE), pick(w1, NWHERE)
+    assume(wa != GAP)
+    _place(wa, p0)
+    _place(wb, p1)
+    _harness(PROGS[pick(prog, len(PROGS))], [(p0, pick(a0, NACT), t0), (p1, pick(a1, NACT), t1)], rv, [wa, wb])
+
+
+HARNESSES = {'schedL1': schedL1, 'schedL2': schedL2, 'sched1': sched1, 'sched2': sched2, 'sched3': sched3, 'sched4': sched4}
 
 
 def shards(tier):
@@ -162,12 +195,20 @@ def shards(tier):
     for prog in range(len(PROGS)):
         for a0 in range(NACT):
             if tier == 'quick':
+                out.append(dict(name=f'schedL1/prog={PROGS[prog]},a0={a0}', harness='schedL1', fixed=dict(prog=prog, a0=a0), budget_s=300))
+                if PROGS[prog] in (2, 7):
+                    for w0 in range(1, NWHERE):
+                        out.append(dict(name=f'schedL2/prog={PROGS[prog]},a0={a0},w0={w0}', harness='schedL2',
+                                        fixed=dict(prog=prog, a0=a0, w0=w0), budget_s=600))
                 out.append(dict(name=f'sched2/prog={PROGS[prog]},a0={a0}', harness='sched2', fixed=dict(prog=prog, a0=a0), budget_s=300))
                 if PROGS[prog] in (1, 2, 3):
                     for a1 in range(NACT):
                         out.append(dict(name=f'sched3/prog={PROGS[prog]},a0={a0},a1={a1}', harness='sched3',
                                         fixed=dict(prog=prog, a0=a0, a1=a1), budget_s=600))
             else:
+                for w0 in range(1, NWHERE):
+                    out.append(dict(name=f'schedL2/prog={PROGS[prog]},a0={a0},w0={w0}', harness='schedL2',
+                                    fixed=dict(prog=prog, a0=a0, w0=w0), budget_s=1800))
                 for a1 in range(NACT):
                     out.append(dict(name=f'sched3/prog={PROGS[prog]},a0={a0},a1={a1}', harness='sched3',
                                     fixed=dict(prog=prog, a0=a0, a1=a1), budget_s=1800))
